@@ -68,4 +68,43 @@ theorem C14_token_rule_language (name : String) (re : Re) (skip : Bool) (h : (na
   rw [hget'] at this
   exact this
 
+
+/-! ### parser: the body of every rule over tokens and rule references -/
+
+theorem C14_parser_atn_decodes : decode Gen.pyParserATN = some Gen.parserATN := by decide +kernel
+
+theorem C14_parser_subautomata :
+    (List.range Gen.parserAllRules.length).map (mkSubP Gen.parserATN) = Gen.parserSubs := by decide +kernel
+
+theorem C14_parser_certificates :
+    ((Gen.parserSubs.zip (Gen.parserAllRules.zip Gen.parserCerts)).all fun x => certOK x.1 x.2.1.2 x.2.2) = true ∧
+    Gen.parserSubs.length = Gen.parserAllRules.length ∧ Gen.parserCerts.length = Gen.parserAllRules.length := by
+  decide +kernel
+
+/-- **The shipped parser automaton has the grammar's rule bodies.** For every parser rule of
+src/blackbird.g4 (`i` = its index) and every word `w` over the alphabet "token types, EOF = 0, reference
+to parser rule k = 1000 + k": the automaton embedded in the generated parsers leads from the rule's
+start state to its stop state on `w` (a reference to a rule being one step, precedence predicates
+ignored) exactly when the rule's right-hand side - for the left-recursive rule `expression` the form
+ANTLR rewrites it to, `primary (operator operand)*` - matches `w`. -/
+theorem C14_parser_rule_language (i : Nat) (hi : i < Gen.parserAllRules.length) (w : List Nat) :
+    ruleBodyAccepts Gen.parserATN i w = reMatches (Gen.parserAllRules[i]).2 w := by
+  obtain ⟨hall, hl1, hl2⟩ := C14_parser_certificates
+  have hsub : mkSubP Gen.parserATN i = Gen.parserSubs[i]'(by omega) := by
+    have h := C14_parser_subautomata
+    have h2 : ((List.range Gen.parserAllRules.length).map (mkSubP Gen.parserATN))[i]'(by simpa using hi) =
+        Gen.parserSubs[i]'(by omega) := by simp only [h]
+    simpa using h2
+  have hz : i < (Gen.parserSubs.zip (Gen.parserAllRules.zip Gen.parserCerts)).length := by
+    simp only [List.length_zip]; omega
+  have hmem := List.getElem_mem hz
+  have hok := List.all_eq_true.mp hall _ hmem
+  simp only [List.getElem_zip] at hok
+  unfold ruleBodyAccepts
+  rw [hsub]
+  exact (certOK_sound _ _ _ hok w).symm
+
+/-- the only rule given in rewritten form is `expression` -/
+theorem C14_left_recursive_rules : Gen.leftRecursiveRules = ["expression"] := by decide +kernel
+
 end Blackbird
